@@ -742,6 +742,73 @@ func TestNumberAdjacency(t *testing.T) {
 	evid.Exhaustive("numeral x operator x right operand x {no blank, blank}", n)
 }
 
+// TestShiftedFloatSpellings: one value, many spellings: the decimal point moved to the left or right by k places and
+// the exponent adjusted by k - leading zeros after the point, trailing zeros before it, exponents far beyond the
+// float64 range that the mantissa brings back into it. Oracle: strconv.ParseFloat of the very spelling.
+func TestShiftedFloatSpellings(t *testing.T) {
+	digits := []string{"1", "17976931348623157", "22250738585072014", "5", "49406564584124654", "123456789", "9007199254740993", "1797693134862315708145274237317043567981"}
+	exps := []int{-330, -324, -323, -308, -307, -20, -1, 0, 1, 15, 22, 23, 290, 300, 307, 308}
+	n := 0
+	for _, d := range digits {
+		for _, e := range exps {
+			for _, k := range []int{0, 1, 2, 3, 5, 17, 30, 310, 340} {
+				for _, dir := range []int{-1, 1} {
+					var sp string
+					if dir < 0 {
+						// 0.000ddd e(E+k+len)
+						sp = "0." + strings.Repeat("0", k) + d + "e" + fmt.Sprint(e+k+len(d))
+					} else {
+						// ddd000 e(E-k)
+						sp = d + strings.Repeat("0", k) + "e" + fmt.Sprint(e-k)
+						if k%2 == 1 {
+							sp = d + strings.Repeat("0", k) + ".0E" + fmt.Sprint(e-k)
+						}
+					}
+					want, err := strconv.ParseFloat(sp, 64)
+					if err != nil {
+						continue // out of range: the spelling denotes no float64
+					}
+					for _, sign := range []string{"", "-"} {
+						judgeNumber(t, "shifted-floats", sp, sign, numExpect{f: want}, true)
+						n++
+					}
+				}
+			}
+		}
+	}
+	evid.Exhaustive("digit string x exponent x shift of the decimal point (both directions) x sign", n)
+}
+
+// TestUnicodeEscapePlanes: \UHHHHHHHH over all seventeen planes (and the first value beyond them) at the low halves
+// where a sixteen-bit view of the number would see a surrogate or a boundary; \uHHHH over the same low halves.
+func TestUnicodeEscapePlanes(t *testing.T) {
+	lows := []int{0x0000, 0x0041, 0xD7FF, 0xD800, 0xD801, 0xDBFF, 0xDC00, 0xDFFF, 0xE000, 0xFFFD, 0xFFFE, 0xFFFF}
+	n := 0
+	for plane := 0; plane <= 17; plane++ {
+		for _, low := range lows {
+			cp := plane<<16 | low
+			valid := cp <= 0x10FFFF && !(cp >= 0xD800 && cp <= 0xDFFF)
+			ex := expect{V: vReject}
+			if valid {
+				ex = expect{V: vAccept, Value: "a" + string(rune(cp)) + "z"}
+			}
+			for _, q := range []string{"\"", "'"} {
+				for _, hexf := range []string{"%08X", "%08x"} {
+					src := "x = " + q + "a\\U" + fmt.Sprintf(hexf, cp) + "z" + q
+					judgeString(t, "unicode-planes", "unicode-escape", src, ex, false, true)
+					n++
+				}
+			}
+			if plane == 0 {
+				src := "x = \"a\\u" + fmt.Sprintf("%04X", cp) + "z\""
+				judgeString(t, "unicode-planes", "unicode-escape", src, ex, false, true)
+				n++
+			}
+		}
+	}
+	evid.Exhaustive("plane 0..17 x low half x quote x hex case", n)
+}
+
 // TestLeadingZeros: a numeral that starts with 0 and goes on with digits follows Go's base rule (the digits are
 // octal; with an 8 or 9 among them the spelling is not an integer and denotes the decimal float); 0 alone, 00 and
 // spellings with a fraction or exponent are decimal.
